@@ -147,7 +147,7 @@ def wrap_style(css, rng, variant):
 CSS_VARIANTS = ["dq", "sq", "entities", "unquoted", "open", "tightsep"]
 
 # ----------------------------------------------------------------------------- spellings: HTML node classes
-BAD_CSS = ["position:fixed;top:0", "color:red;position:absolute", "background:url(javascript:alert(1))", "behavior:url(x.htc)",
+BAD_CSS = ['"*/top:0;"', "'*/top:0;'", "url(*/top:0;)", '"*/position:fixed;top:0;"', "position:fixed;top:0", "color:red;position:absolute", "background:url(javascript:alert(1))", "behavior:url(x.htc)",
            "-moz-binding:url(x.xml#x)", "width:expression(alert(1));left:0", "color:red;/**/position:fixed", "POSITION:FIXED",
            "\\70osition:fixed", "color:red\\;position:fixed;top:0", "color:'a;b';position:fixed", "@import 'x';position:fixed",
            "color:red;;position:fixed;width:1px", "{}position:fixed", "color:(;position:fixed;);z-index:9"]
@@ -242,7 +242,11 @@ def node_variants(c):
         return [(lambda rng, s=s: ('<%s style="%s">' % (t, attr_escape(s, '"')), "</%s>" % t))
                 for s in BAD_CSS for t in ("p",)] + [fixed("<p style>", "</p>"), fixed("<p style=>", "</p>")] + \
                [(lambda rng, s=s, lead=lead: ('<p%sstyle="%s">' % (lead, attr_escape(s, '"')), "</p>"))
-                for s in BAD_CSS[:3] for lead in ('/', '\t', '\n', '\f', ' id="a"', " id='a'")]
+                for s in BAD_CSS[3:6] for lead in ('/', '\t', '\n', '\f', ' id="a"', " id='a'")] + \
+               [(lambda rng, s=s, nm=nm: ('<p %s="%s">' % (nm, attr_escape(s, '"')), "</p>"))
+                # bytes that are not UTF-8 (a lone surrogate, encoded as is) inside and next to the attribute name: a pass that
+                # drops them turns the name into "style" behind the back of the CSS filter
+                for s in BAD_CSS[4:7] for nm in ("st\udc80yle", "\udc80style", "style\udc80", "s\udcfftyle")]
     if c == "rawtext":
         return [fixed("<textarea>", "</textarea>"), fixed("<title>", "</title>"), fixed("<xmp>", "</xmp>"), fixed("<noscript>", "</noscript>"),
                 fixed("<plaintext>", ""), fixed("<noembed>", "</noembed>"), fixed("<noframes>", "</noframes>"), fixed("<listing>", "</listing>"),
